@@ -6,10 +6,10 @@ flavour="${1:-plain}"
 tmp=$(mktemp -d "${TMPDIR:-/tmp}/verif-inst.XXXXXX")
 trap 'rm -rf "$tmp"' EXIT
 ( cd "$VERIF_ROOT/instrument" && go build -o "$VERIF_BUILD/instrument" . )
-"$VERIF_BUILD/instrument" -repo /repo -shim "$VERIF_ROOT/shim" -out "$tmp"
+"$VERIF_BUILD/instrument" -repo "$VERIF_REPO" -shim "$VERIF_ROOT/shim" -out "$tmp"
 cp "$tmp/report.json" "$VERIF_BUILD/instrument-report.json"
 cd "$VERIF_ROOT/engine"
-cp /repo/go.sum go.sum 2>/dev/null || true
+cp "$VERIF_REPO/go.sum" go.sum 2>/dev/null || true
 if [ "$flavour" = "race" ]; then
   go build -race -tags verif -overlay "$tmp/overlay.json" -o "$VERIF_BUILD/verif-sched-race" ./cmd/verif-sched
 else
